@@ -1,5 +1,6 @@
 import AITB.Model.Num
 import Driver.C14
+import Driver.C11
 open AITB
 
 def handleLine (line : String) : String :=
@@ -8,6 +9,7 @@ def handleLine (line : String) : String :=
       | some x => s!"ok {x}"
       | none => "bad-op"
   | "C14" :: rest => DrvC14.handle rest
+  | "C11" :: rest => DrvC11.handle rest
   | _ => "bad-op"
 
 partial def loop (h : IO.FS.Stream) (out : IO.FS.Stream) : IO Unit := do
